@@ -207,7 +207,9 @@ class FetcherRun:
                 f.stop()
             else:
                 raise ValueError(tok)
-        except (KeyError, AttributeError) as e:
+        except ValueError:
+            raise
+        except Exception as e:
             self.calls.append(exc_name(e))
         return (",".join(self.calls) or "-") + "|" + fetcher_digest(f, len(self.queue), self.node.verdict)
 
@@ -365,6 +367,8 @@ class NodeRun:
         self.shares = {}
         self.reqs = {}
         self.retired = []
+        self.unhandled = []
+        self.cancelled = []
         self.numsegs = numsegs
         run = self
 
@@ -452,6 +456,7 @@ class NodeRun:
                 self.cur = len(self.fetchers)
                 c = self.reqs.get(int(parts[1]))
                 if c is not None:
+                    self.cancelled.append(int(parts[1]))
                     c.cancel()
             elif parts[0] == "a":
                 shs = []
@@ -497,8 +502,17 @@ class NodeRun:
                         f.loop()
             else:
                 raise ValueError(tok)
+        except ValueError:
+            raise
+        except Exception as e:          # what foolscap's eventual-send queue would log as "Unhandled Error"
+            self.calls.append("%d:exc=%s" % (self.cur, type(e).__name__))
+            self.unhandled.append("%s in %s" % (type(e).__name__, tok))
         finally:
-            self._drain_delivers()
+            try:
+                self._drain_delivers()
+            except Exception as e:
+                self.calls.append("%d:exc=%s" % (self.cur, type(e).__name__))
+                self.unhandled.append("%s in _deliver after %s" % (type(e).__name__, tok))
         act = node._active_segment
         reqs = ",".join("%d.%d" % (t[0], self._reqid(t[2])) for t in node._segment_requests) or "-"
         if act is None:
@@ -639,7 +653,8 @@ def gen_node_script(rng, malformed=False, max_events=160):
                 "outstanding": 0 if act is None or not act._running else
                 sum(len(ss) for ss in act._shares_from_server.values()),
                 "nomore": act is not None and act.gen in told_nomore,
-                "unannounced": len(unannounced)}
+                "unannounced": len(unannounced), "unhandled": list(R.unhandled),
+                "submitted": sorted(R.reqs), "cancelled": sorted(set(R.cancelled))}
     finally:
         R.close()
     return (k, numsegs, badsegs), toks, digs, info
@@ -651,7 +666,9 @@ def replay_node_script(k, numsegs, badsegs, toks):
         digs = [R.apply(t) for t in toks]
         act = R.node._active_segment
         info = {"waiting": [R._reqid(t[2]) for t in R.node._segment_requests], "retired": list(R.retired),
-                "active": None if act is None else (act.gen, act.segnum, bool(act._running))}
+                "active": None if act is None else (act.gen, act.segnum, bool(act._running)),
+                "unhandled": list(R.unhandled), "submitted": sorted(R.reqs), "cancelled": sorted(set(R.cancelled)),
+                "queued": len(R.queue)}
         return digs, info
     finally:
         R.close()
@@ -662,6 +679,9 @@ def replay_node_script(k, numsegs, badsegs, toks):
 def _grid():
     import grid
     return grid
+
+
+UNHANDLED = []      # exceptions nobody handled (eventual-send queue) during the current grid scenario
 
 
 def make_fault_wrapper():
@@ -721,6 +741,16 @@ def fault_grid(seed, policy, tag, **kw):
     grid = _grid()
     saved = grid.LocalWrapper
     grid.LocalWrapper = make_fault_wrapper()
+    from twisted.python import log as _tlog2
+
+    def _observer(ev):
+        # foolscap's eventual-send queue and Deferred garbage report exceptions nobody handled through log.err
+        if ev.get("isError") and ev.get("failure") is not None and "Unhandled" in str(ev.get("why") or ev.get("message") or "Unhandled"):
+            try:
+                UNHANDLED.append(ev["failure"].value.__class__.__name__ + ": " + str(ev["failure"].value)[:80])
+            except Exception:
+                UNHANDLED.append("?")
+    _tlog2.addObserver(_observer)
     try:
         # injected faults make the real code log.err() a lot; twisted's pre-startLogging observer prints those
         from twisted.python import log as _tlog
@@ -739,6 +769,7 @@ def fault_grid(seed, policy, tag, **kw):
             finally:
                 g.close()
     finally:
+        _tlog2.removeObserver(_observer)
         grid.LocalWrapper = saved
 
 
@@ -974,6 +1005,8 @@ def plan_fn(kind, nth, delay):
         return lambda m, i: "disconnect" if i == nth else None
     if kind == "hang-then-drop":
         return lambda m, i: "hang" if i >= nth else None
+    if kind == "error-reads":          # the server answers the share-location query but fails every block read
+        return lambda m, i: "error" if m == "read" else None
     if kind == "error-read-once":
         cnt = {"r": 0}
 
@@ -1037,6 +1070,7 @@ def _run_scenario(sc, data, out):
     from allmydata import uri
     import shutil
     import os
+    del UNHANDLED[:]
     with fault_grid(sc["grid_seed"], sc["policy"], "c03", num_servers=sc["servers"], num_clients=1,
                     k=sc["k"], happy=1, n=sc["n"], max_segment_size=sc["segsize"]) as (rt, g):
         c = g.clients[0]
@@ -1079,6 +1113,13 @@ def _run_scenario(sc, data, out):
             elif kind in HASH_FAULTS:
                 if damage_hash_node(path, kind, random.Random(fseed)) is not None:
                     state[(srv, shnum)] = "corrupt"
+            elif kind == "block0":          # one wrong byte in the block of segment 0
+                base, ver, bs, ds, o, b = share_layout(path)
+                bb = bytearray(b)
+                bb[base + o["data"] + min(3, max(0, bs - 1))] ^= 0x20
+                with open(path, "wb") as f:
+                    f.write(bytes(bb))
+                state[(srv, shnum)] = "corrupt"
             elif kind == "truncate-header":
                 with open(path, "rb") as f:
                     b = f.read()
@@ -1133,6 +1174,7 @@ def _run_scenario(sc, data, out):
             out["groups"].append(outs)
         dn = node._cnode._node
         out["active_segment_left"] = dn._active_segment is not None
+        out["unhandled"] = sorted(set(UNHANDLED))
     return out
 
 
@@ -1524,6 +1566,15 @@ GRID_CORPUS = [
                                    share_faults=[["sh0", "shc-leaf", 1], ["sh1", "bht-node", 2]], reads=[[[0, 500]], [[130, 70]]])),
     ("hash-chain-top-mid-damage", _sc(k=3, n=10, servers=1, size=700, segsize=128, hashdamage=True,
                                       share_faults=[["sh0", "shc-top", 5], ["sh1", "shc-mid", 6]], reads=[[[0, 700]]])),
+    # seeded C46-d: 2-3 concurrent reads on one node waiting for the SAME segment whose fetch fails, then a further read
+    ("concurrent-same-segment-too-few", _sc(k=2, n=2, servers=2, share_faults=[[0, "delete", 0]],
+                                            reads=[[[0, 100], [0, 100], [10, 20]], [[0, 100]]])),
+    ("concurrent-same-segment-reads-fail", _sc(k=1, n=2, servers=2, server_plans={"0": ["error-reads", 1, 1], "1": ["error-reads", 1, 1]},
+                                               reads=[[[0, 100], [0, 100]], [[0, 50]]])),
+    ("concurrent-same-segment-corrupt-blocks", _sc(k=1, n=2, servers=2, share_faults=[["sh0", "block0", 0], ["sh1", "block0", 0]],
+                                                   reads=[[[0, 100], [0, 100], [5, 5]], [[0, 100]]])),
+    ("concurrent-same-segment-decode-failure", _sc(k=2, n=4, servers=5, size=200, crafted=[0],
+                                                   reads=[[[0, 200], [0, 200]], [[0, 64]], [[70, 20]]])),
     # fix 6853eb2: ciphertext hash check of segment 1 fails after block validation; later reads on the same node
     ("decode-failure-then-reads", _sc(k=2, n=4, servers=5, size=200, crafted=[1],
                                       reads=[[[0, 64]], [[64, 64]], [[64, 10]], [[0, 64]]])),
